@@ -75,6 +75,10 @@ func (c *Ctx) helperObligations(R string, e entry, guard ssa.CallInstruction, gu
 				"call is reachable without a successful "+guardName+": the helper "+fname(in.Parent())+" is called before the check")
 		}
 		for _, h := range helpers {
+			// only helpers that load links or can execute commands need the entry point's checks in front of them
+			if !c.reachesDangerous(h) {
+				continue
+			}
 			fc := c.foreignCallers(h)
 			c.check(len(fc) == 0, R, fname(h), "helper is called from verification entry points only", h.Pos(), "callers are entry points / their helpers",
 				"the pipeline helper "+fname(h)+" is also called from "+strings.Join(fc, ", ")+", where "+guardName+" does not precede it")
